@@ -6,6 +6,7 @@ import (
 	"fmt"
 	"math/rand/v2"
 	"path/filepath"
+	"strconv"
 	"strings"
 	"syscall"
 
@@ -30,6 +31,8 @@ type Cfg struct {
 	ReadOnlyOpen bool // FileOp opens files with O_RDONLY only
 	// AvoidRootOps: never use "/" as operand of Remove/RemoveAll/Rename/Link destination (sequentially unsafe on the pinned tree).
 	AvoidRootOps bool
+	// NoChange: one call in eight gets "no change" argument values (zero time, current size, current mode, -1/-1, empty data)
+	NoChange bool
 }
 
 // G is a generator.
@@ -279,9 +282,35 @@ func (g *G) Data() string {
 func (g *G) Next() fsx.Op {
 	for {
 		if o, ok := g.try(); ok {
+			if g.NoChange && g.R.IntN(8) == 0 {
+				o = g.noChange(o)
+			}
 			return o
 		}
 	}
+}
+
+// noChange gives a mutating call the argument values that ask for "no change" (see Degenerate), looked up in the last
+// observed tree for path calls.
+func (g *G) noChange(o fsx.Op) fsx.Op {
+	var size int64
+	var mode uint32
+	p := o.P
+	if p != "" && !strings.HasPrefix(p, "/") {
+		p = join(g.Cwd, p)
+	}
+	p = filepath.Clean(p)
+	for _, r := range g.Exist {
+		if r.Path == p {
+			size = r.Size
+			if len(r.Mode) == 5 {
+				if m, err := strconv.ParseUint(r.Mode[1:], 8, 32); err == nil {
+					mode = uint32(m) & 0o777
+				}
+			}
+		}
+	}
+	return Degenerate(g.R, o, size, mode)
 }
 
 func (g *G) safe(p string) bool {
